@@ -520,3 +520,33 @@ def items(tier: str, seed: int) -> List[Dict[str, Any]]:
     out.append({"ob": "yields", "params": {}, "timeout": 200, "label": "yields"})
     out.append({"ob": "residue", "params": {"N": 3 if quick else 4}, "timeout": 300 if quick else 1500, "label": f"residue[N={3 if quick else 4}]"})
     return out
+
+
+def run_chain(eng: int, k: int, kind: str, length: Any, at_start: bool) -> Dict[str, Any]:
+    """One chain run on one engine; returns what an observer can see afterwards (used by C05 `cut_agree`)."""
+    from xstate_statemachine import Interpreter, SyncInterpreter
+
+    CTL.update({"L": length, "steps": [], "pings": [], "out": False, "fuel": 8 * (k + 4) + (0 if length == INF else 2 * length) + 20})
+    m = _machine(k, kind if at_start else None)
+    info: Dict[str, Any] = {}
+    if eng == 0:
+        vthread.SCHED.reset(0.0)
+        it = SyncInterpreter(m)
+        it.start()
+        if not at_start:
+            it.send(TRIGGER[kind])
+        info = {"steps": list(CTL["steps"]), "cfg": sorted(n.id for n in it._active_state_nodes), "ctx": dict(it.context), "status": it.status}
+        it.stop()
+        return info
+    it = Interpreter(m)
+
+    async def go() -> None:
+        await it.start()
+        if not at_start:
+            await it.send(TRIGGER[kind])
+        await _drain(it)
+        info.update({"steps": list(CTL["steps"]), "cfg": sorted(n.id for n in it._active_state_nodes), "ctx": dict(it.context), "status": it.status})
+        await it.stop()
+
+    common.drive(go())
+    return info
